@@ -30,7 +30,7 @@ class C10(ParserSessionProp):
         k['max_len'] = rng.choice([3, 4, 5]) if tier == 'quick' else rng.choice([4, 5, 6])
         return k
 
-    large_k_every = {'quick': 300, 'thorough': 120}
+    large_k_every = {'quick': 150, 'thorough': 100}
 
     def generate(self, seed, index, tier, options):
         e = self.large_k_every.get(tier, 0)
@@ -47,7 +47,10 @@ class C10(ParserSessionProp):
                                    [f'Y{(i + 2 * j + 1) % 3}', f's{i}{j}', f'<s{i}{j}>', head]][:rng.choice([1, 2, 2])]
                  for i in range(3) for j in range(3)}
         sentences = []
-        for sid, n in enumerate([8, rng.choice([3, 4])]):
+        # every third such run asks for "all of them": k at and beyond 2^31 (legal for the unsigned field) on sentences
+        # small enough for the complete list (thousands of derivations) to come back
+        everything = rng.random() < 0.34
+        for sid, n in enumerate([4, 3] if everything else [8, rng.choice([3, 4])]):
             tag, dep = gen.make_scores(nprng, rng, n, 3, rng.choice(['continuous', 'quantised']))
             sentences.append({'words': [f'k{sid}x{i}' for i in range(n)], 'tag': gen.arr_to_hex(tag),
                               'dep': gen.arr_to_hex(dep), 'style': 'continuous', 'rich': False, 'favoured': None})
@@ -56,7 +59,7 @@ class C10(ParserSessionProp):
                              'categories': ['Y0', 'Y1', 'Y2'], 'roots': rng.sample(['Y0', 'Y1', 'Y2'], rng.choice([1, 3])),
                              'lang': 'en'},
                  'sentences': sentences}
-        k = rng.choice([2000, 5000])
+        k = rng.choice([2147483647, 2147483648, 3000000000, 4294967295]) if everything else rng.choice([2000, 5000])
         op = {'op': 'call', 'batch': [1, 0], 'processes': 1, 'max_chunk_size': 20, 'unary_penalty': 0.1, 'beta': 1e-5,
               'use_beta': False, 'pruning_size': 3, 'nbest': k, 'max_step': 20000000, 'max_length': 250}
         return {'prop': self.id, 'seed': seed, 'index': index, 'world': wspec, 'ops': [op],
